@@ -203,6 +203,18 @@ impl AssemblyWindow {
     }
 }
 
+#[cfg(uflow_verif)]
+impl AssemblyWindow {
+    /// (alloc, max_alloc, bytes held by in-progress assembly buffers)
+    pub fn verif_probe(&self) -> (usize, usize, usize) {
+        let held = self.window.iter().map(|e| match e {
+            WindowEntry::Active(a) => a.asm_buffer.verif_capacity(),
+            _ => 0,
+        }).sum();
+        (self.alloc, self.max_alloc, held)
+    }
+}
+
 #[cfg(test)]
 mod tests {
     use super::*;
